@@ -368,6 +368,83 @@ def sub_routes(acc):
     acc.sample("routes", {"preset": "commonmark", "opt": "breaks", "value": True}, 1)
 
 
+# ---- (5) switching after use = switching before use --------------------------------------------------------
+WARM_DOCS = ["*a* `b` ~~c~~ [d](e) ![f](g) <h@i.j> &amp; \\* <b>\n\n> q\n\n- l\n\n    code\n\n# h\n\nt\n===\n\n***\n\n```\nf\n```\n\n|a|\n|-|\n\n[r]: /u\n\n<div>\n",
+             "\"q\" -- (c) http://x.y\n"]
+TOGGLE_OPTS = [("html", True), ("html", False), ("typographer", True), ("typographer", False), ("linkify", True),
+               ("linkify", False), ("breaks", True), ("xhtmlOut", True), ("langPrefix", "l-"), ("maxNesting", 2),
+               ("quotes", "abcd"), ("inline_definitions", True), ("store_labels", True)]
+
+
+def _mk(base):
+    from ..configs import StubLinkify
+
+    md = C.build(base, fresh=True)
+    md.linkify = StubLinkify()
+    return md
+
+
+TOGGLE_FIRSTS = [None, ("disable", "code"), ("disable", "table"), ("item", "html", False)]
+
+
+def sub_toggle(bi, acc, fi=None, part=None, nparts=1):
+    """for every rule switch and option: an instance that has already parsed, then is reconfigured, must behave
+    like an instance configured the same way before its first parse"""
+    base = BASES[bi]
+    docs = docs_small()[::4] + WARM_DOCS + ["    # a\n", "\ta\n", "  - a\n\n      b\n"]
+    actions = []
+    for r in C.RULE_SW:
+        actions.append(("disable", r))
+        actions.append(("enable", r))
+    for k, v in TOGGLE_OPTS:
+        actions.append(("item", k, v))
+        if k not in ("inline_definitions", "store_labels"):
+            actions.append(("attr", k, v))
+
+    def apply(md, a):
+        if a[0] == "disable":
+            md.disable(a[1])
+        elif a[0] == "enable":
+            md.enable(a[1])
+        elif a[0] == "item":
+            md.options[a[1]] = a[2]
+        else:
+            setattr(md.options, a[1], a[2])
+
+    for first in (TOGGLE_FIRSTS if fi is None else [TOGGLE_FIRSTS[fi]]):
+        for ai, a in enumerate(actions):
+            if part is not None and ai % nparts != part:
+                continue
+            acc.case()
+            used = _mk(base)
+            fresh = _mk(base)
+            if first:
+                apply(used, first)
+                apply(fresh, first)
+            for w in WARM_DOCS:
+                acc.call(used.render, w)
+            apply(used, a)
+            apply(fresh, a)
+            acc.sig(("toggle", bi, first, a))
+            for d in docs:
+                x = acc.call(used.parse, d)
+                y = acc.call(fresh.parse, d)
+                if x is CRASH or y is CRASH:
+                    continue
+                if [t.as_dict() for t in x] != [t.as_dict() for t in y]:
+                    acc.violation("toggle", f"switch applied after use differs from before use: {a[:2]}",
+                                  {"base": bi, "first": first, "action": list(a), "src": d},
+                                  f"after parsing, {a} does not have the effect it has on a fresh instance")
+                    break
+                hx = acc.call(used.renderer.render, x, used.options, {})
+                hy = acc.call(fresh.renderer.render, y, fresh.options, {})
+                if hx is not CRASH and hy is not CRASH and hx != hy:
+                    acc.violation("toggle", f"switch applied after use renders differently: {a[:2]}",
+                                  {"base": bi, "first": first, "action": list(a), "src": d},
+                                  f"after parsing, {a} renders differently from a fresh instance")
+                    break
+
+
 # ---- driver --------------------------------------------------------------------------------------------------
 def docs_small():
     out = list(S.docs(S.FREE_LINES, 2)) + list(S.strings(S.ATOMS, 2)) + I.core_docs()
@@ -418,6 +495,10 @@ def shards(tier):
             sh.append(("idef", bi, f, 4 if th else 3))
     sh.append(("routes",))
     sh.append(("codeoff",))
+    for bi in range(len(BASES)):
+        for fi in range(len(TOGGLE_FIRSTS)):
+            for part in range(4):
+                sh.append(("toggle", bi, fi, part, 4))
     return sh
 
 
@@ -478,6 +559,9 @@ def run_shard(sh, acc):
     elif kind == "codeoff":
         sub_code_off(acc)
         acc.sample(kind, {"src": "    # a\n"}, 1)
+    elif kind == "toggle":
+        sub_toggle(sh[1], acc, sh[2], sh[3], sh[4])
+        acc.sample(kind, {"base": BASES[sh[1]], "history": ["render(warm-up)", "disable('code')", "parse('    # a')"]}, 1)
 
 
 def check_case(case, acc):
@@ -514,3 +598,5 @@ def check_case(case, acc):
         sub_routes(acc)
     elif sub == "codeoff":
         sub_code_off(acc)
+    elif sub == "toggle":
+        sub_toggle(case["base"], acc)
